@@ -73,6 +73,9 @@ same name. -/
 def Distinct (fs : List Field) : Prop :=
   fs.Pairwise (fun f g => f.spelledBy g.name = false ∧ g.spelledBy f.name = false)
 
+instance (fs : List Field) : Decidable (Distinct fs) :=
+  inferInstanceAs (Decidable (List.Pairwise _ fs))
+
 /-- The serialiser never skips a value that the deserialiser could not do without
 (`skip_serializing_if` only on fields that are neither required nor written back when absent), and
 the written-back default is a value the field itself reads back unchanged. -/
